@@ -14,6 +14,7 @@ import (
 
 // Frame is one activation (top-level function or an inlined callee).
 type Frame struct {
+	auto bool // an auto-inlined helper (engine.autoInline): part of its caller for anchors and ghost state
 	lockPaths map[string]bool // field paths of the mutexes this function acquires (locksum.go)
 	selectOk Term // the recvOk value of the select being executed
 	sendNonBlocking bool // the send being executed is an arm of a select with a default arm
@@ -452,7 +453,7 @@ func (fr *Frame) safety(kind, what string, pos token.Pos, cond Term) {
 	if fr.fn != fr.vc.fn {
 		name = fmt.Sprintf("%s/%s@%s:%s#%s", relFuncName(fr.vc.fn), kind, relFuncName(fr.fn), what, hash4(src+what))
 	}
-	fr.vc.oblige(kind, name, p, src, fr.reach, cond, fr.vc.safetyProps())
+	fr.vc.oblige(kind, name, p, src, fr.reach, cond, fr.vc.safetyProps(kind))
 }
 
 func (fr *Frame) loadLoc(l *Loc) *Val {
